@@ -57,6 +57,12 @@ func (r *Result) Crashed() (bool, string) {
 	if r.Exit == 2 && bytes.Contains(r.Stderr, []byte("goroutine ")) {
 		return true, "exit status 2 with goroutine dump"
 	}
+	// a panic inside a String/Error method is swallowed by fmt and printed as %!s(PANIC=...): still a panic
+	for _, out := range [][]byte{r.Stdout, r.Stderr} {
+		if i := bytes.Index(out, []byte("(PANIC=")); i >= 2 && out[i-2] == '%' || i >= 3 && out[i-3] == '%' {
+			return true, "output contains a panic swallowed by fmt: " + strconv.Quote(string(out[max(0, i-3):min(len(out), i+50)]))
+		}
+	}
 	return false, ""
 }
 
